@@ -46,6 +46,7 @@ const preludeBase = `(set-logic ALL)
 (declare-fun tfield (Int Str) Bool)
 (declare-fun texported (Int Str) Bool)
 (declare-fun tnumfield (Int) Int)
+(declare-fun fprinted (Val) Str)
 (declare-fun spellsint (Str) Bool)
 (declare-fun parseint (Str) Int)
 (declare-fun spellsflt (Str) Bool)
